@@ -136,8 +136,16 @@ pub fn case_history(va: &dyn VariantApi, h: &History, st: &CaseStats) -> Result<
                     }
                     Ev::Fork => {
                         if forks_used < h.fork_pieces.len() {
-                            let c = live[0].g.boxed_clone();
+                            // every other fork goes through `Clone::clone_from` into a generator
+                            // that is in a different state (0..=5 or 300 bytes fed) instead of `clone`
                             let fed = live[0].fed;
+                            let c = if (forks_used + fed + data.len()) % 2 == 1 {
+                                let pre = [0usize, 1, 2, 3, 4, 5, 300][(fed + 3 * forks_used + data.len()) % 7];
+                                st.class("event: fork by clone_from");
+                                live[0].g.boxed_clone_from(&vec![0xA5u8; pre])
+                            } else {
+                                live[0].g.boxed_clone()
+                            };
                             live.push(Live { g: c, fed, plan: h.fork_pieces[forks_used].clone(), next: 0 });
                             forks_used += 1;
                             if fed > 0 && fed < total {
